@@ -251,6 +251,44 @@ Theorem C20_file_roundtrip : forall fs p s1 s2 ser parse app_ok,
 Proof. exact file_roundtrip. Qed.
 Print Assumptions C20_file_roundtrip.
 
+(* ---- the descriptor is the caller's: it stands at a position of its file; json-c reads (writes)
+   from where it stands and does nothing else to it (the model has no other descriptor operation;
+   the C side is tied by recording stubs for lseek/pread/fstat/ftruncate/... in the driver) ---- *)
+
+(* read_as_memory for every initial position 0 <= pos <= |file|, the end included: what is parsed
+   is exactly file[pos:] and the descriptor is left at the end of the file *)
+Theorem C20_read_as_memory_at : forall parse app_ok sched file pos in_depth,
+  0 <= pos <= zlen file ->
+  always app_ok -> Forall ge1 sched -> zlen file - pos < zlen sched -> 1 <= eff_depth in_depth ->
+  exists reads, object_from_fd_at parse app_ok sched file pos in_depth =
+                  (RRet (memory_result parse in_depth (zskipn pos file) reads), zlen file)
+                /\ 1 <= reads <= zlen file - pos + 1.
+Proof. exact read_as_memory_at. Qed.
+Print Assumptions C20_read_as_memory_at.
+
+Theorem C20_read_error_at : forall parse app_ok pre e post file pos in_depth,
+  0 <= pos <= zlen file ->
+  always app_ok -> Forall ge1 pre -> pos + rsum pre <= zlen file -> 1 <= eff_depth in_depth ->
+  object_from_fd_at parse app_ok (pre ++ Err e :: post) file pos in_depth =
+    (RRet (mkrout JNull MRead (zlen pre + 1) None 0), pos + rsum pre).
+Proof. exact read_error_at. Qed.
+Print Assumptions C20_read_error_at.
+
+(* json_object_to_fd on a positioned descriptor: the serialization lands at the position (the rest
+   of the file stays), at the end with O_APPEND; the position moves behind it *)
+Theorem C20_to_fd_at_exact : forall sched old pos ser,
+  0 <= pos <= zlen old -> Forall ge1 sched -> zlen (c_str ser) <= wsum sched ->
+  exists calls,
+    object_to_fd_at sched old pos false false (Some ser) =
+      (WRet 0 false (c_str ser) calls,
+       zfirstn pos old ++ c_str ser ++ zskipn (pos + zlen (c_str ser)) old,
+       pos + zlen (c_str ser))
+    /\ object_to_fd_at sched old pos true false (Some ser) =
+      (WRet 0 false (c_str ser) calls, old ++ c_str ser,
+       match c_str ser with [] => pos | _ => zlen old + zlen (c_str ser) end).
+Proof. exact to_fd_at_exact. Qed.
+Print Assumptions C20_to_fd_at_exact.
+
 (* ---- non-vacuity ---- *)
 
 Theorem C20_write_nonvacuous :
@@ -317,3 +355,16 @@ Theorem C20_file_nonvacuous :
   /\ object_to_file_with (mkofl O_WRONLY true false true false) None fs [97] [Short 9] false (Some [91;49;93]) =
     (WRet 0 false [91;49;93] 1, [([97], [49;50;51;52;53;54;55;56;57;91;49;93])], 1, 1).
 Proof. exact file_nonvacuous. Qed.
+
+Theorem C20_position_nonvacuous :
+  object_from_fd_at show_parse (fun _ _ => true) [Short 2; Short 9; Short 9] [35;104;100;114;10;91;49;93] 5 7 =
+    (RRet (mkrout (JArr [JInt 7; JStr [91;49;93]]) MNone 3 (Some (7, [91;49;93], 1)) 0), 8)
+  /\ object_from_fd_at show_parse (fun _ _ => true) [Short 9] [91;49;93] 3 7 =
+    (RRet (mkrout (JArr [JInt 7; JStr []]) MNone 1 (Some (7, [], 1)) 0), 3)
+  /\ object_from_fd_at show_parse (fun _ _ => true) [Short 1; Err 4] [35;10;91;49;93] 2 7 =
+    (RRet (mkrout JNull MRead 2 None 0), 3)
+  /\ object_to_fd_at [Short 1; Short 9] [49;50;51;52;53;54] 2 false false (Some [91;93]) =
+    (WRet 0 false [91;93] 2, [49;50;91;93;53;54], 4)
+  /\ object_to_fd_at [Short 1; Short 9] [49;50;51;52;53;54] 2 true false (Some [91;93]) =
+    (WRet 0 false [91;93] 2, [49;50;51;52;53;54;91;93], 8).
+Proof. exact position_nonvacuous. Qed.
